@@ -524,3 +524,261 @@ func rtReuseSemantics(a *aggregator, v *rtView, rule, construct string) {
 	a.Decide(len(bad) == 0 && n >= 10, rule, construct, cfg, pos,
 		fmt.Sprintf("%d input pairs (long then short, success/failure in either place, a backtracked branch that wrote more tokens than the final one, the empty input): with the Size option absent, 0, 1, 2 and 64 on the used instance: every closure variable and the rune buffer after Reset, and the verdict, published tokens, error token and state after Parse, equal a fresh instance's", n), strings.Join(bad, "; "))
 }
+
+// executeSemantics: R-execute-semantics (C04) — a dedicated instantiation of
+// the template whose two actions record what they see; Execute() is evaluated
+// on every short token list over a text with multi-byte runes and compared
+// with the definition: the actions of the list, once each, in order, with
+// text/begin/end of the most recent capture token before them.
+func executeSemantics(c *Check, r *Repo) {
+	construct := "Execute runs the actions of the token list in order with the latest capture's text"
+	ti := loadTemplate(r)
+	if ti.Err != nil {
+		c.Und("R-execute-semantics", construct, "", "template: "+ti.Err.Error())
+		return
+	}
+	bools := map[string]bool{}
+	for _, b := range ti.BoolVars {
+		bools[b] = true
+	}
+	cfg := modelConfig(bools)
+	cfg.RuleNames = []string{"S", "A", "PegText", "Action0", "Action1"}
+	cfg.StructVar = "trace []string"
+	rec := func(id int) string {
+		return fmt.Sprintf(`p.trace = append(p.trace, fmt.Sprintf("A%d text=%%q begin=%%d end=%%d buffer=%%q", text, begin, end, buffer))`, id)
+	}
+	cfg.Actions = []tmplAction{{0, rec(0)}, {1, rec(1)}}
+	head, lm, err := ti.instantiate(cfg)
+	if err != nil {
+		c.Und("R-execute-semantics", construct, "", "instantiate: "+err.Error())
+		return
+	}
+	in := buildInst(r, "tmpl[execute model]", head+syntheticTail(cfg))
+	in.Cfg, in.LineMap, in.ti = cfg, lm, ti
+	if len(in.Errs) > 0 {
+		c.Und("R-execute-semantics", construct, "", "the recording instantiation does not type-check: "+in.Errs[0])
+		return
+	}
+	it := newInstInterp(in)
+	fd, parserT := findInit(it)
+	exe := it.declOf("P.Execute")
+	tokenT, tokensT := it.namedType("token"), it.namedType("tokens")
+	if fd == nil || exe == nil || tokenT == nil || tokensT == nil {
+		c.Und("R-execute-semantics", construct, "", "Execute / Init / token types not found")
+		return
+	}
+	pos := in.srcPos(exe.Pos())
+	// rule numbers from the const block: by name in rul3s order (Unknown=0, then RuleNames)
+	ruleNo := map[string]int64{}
+	for i, n := range cfg.RuleNames {
+		ruleNo[n] = int64(i + 1)
+	}
+	text := []rune("aé世b")
+	type tk struct {
+		kind string
+		b, e int
+	}
+	var kinds []tk
+	for b := 0; b <= len(text); b++ {
+		for e := b; e <= len(text) && e <= b+2; e++ {
+			kinds = append(kinds, tk{"PegText", b, e})
+		}
+	}
+	kinds = append(kinds, tk{"Action0", 1, 1}, tk{"Action1", 2, 2}, tk{"S", 0, 3}, tk{"A", 1, 2})
+	var bad []string
+	und := ""
+	n := 0
+	var lists [][]tk
+	var gen func(prefix []tk, l int)
+	gen = func(prefix []tk, l int) {
+		lists = append(lists, append([]tk{}, prefix...))
+		if l == 0 {
+			return
+		}
+		for _, k := range kinds {
+			// keep the enumeration small: at most two captures per list
+			if k.kind == "PegText" {
+				cnt := 0
+				for _, p := range prefix {
+					if p.kind == "PegText" {
+						cnt++
+					}
+				}
+				if cnt >= 2 || (k.b+k.e)%2 == 1 && l < 3 {
+					continue
+				}
+			}
+			gen(append(prefix, k), l-1)
+		}
+	}
+	gen(nil, 4)
+	for _, list := range lists {
+		if und != "" {
+			break
+		}
+		func() {
+			defer func() {
+				if p := recover(); p != nil {
+					switch x := p.(type) {
+					case nilDeref:
+						bad = append(bad, fmt.Sprintf("Execute dereferences nil at %s on %v", x.pos, list))
+					case goPanic:
+						bad = append(bad, fmt.Sprintf("Execute panics (%s at %s) on %v", x.msg, x.pos, list))
+					case undecided:
+						und = x.msg
+					default:
+						panic(p)
+					}
+				}
+			}()
+			p := it.newObj(parserT)
+			p.field("Buffer").v = string(text)
+			bv := &SliceV{}
+			for _, r := range text {
+				bv.elems = append(bv.elems, int64(r))
+			}
+			bv.elems = append(bv.elems, int64(0x110000))
+			p.field("buffer").v = bv
+			p.field("trace").v = &SliceV{elems: []Value{}}
+			ts := it.newObj(tokensT)
+			tl := &SliceV{elems: []Value{}}
+			var want []string
+			wt, wb, we := "", 0, 0
+			for _, t := range list {
+				to := it.newObj(tokenT)
+				to.field("pegRule").v = ruleNo[t.kind]
+				to.field("begin").v = int64(t.b)
+				to.field("end").v = int64(t.e)
+				tl.elems = append(tl.elems, to)
+				switch t.kind {
+				case "PegText":
+					wt, wb, we = string(text[t.b:t.e]), t.b, t.e
+				case "Action0", "Action1":
+					want = append(want, fmt.Sprintf("A%s text=%q begin=%d end=%d buffer=%q", t.kind[6:], wt, wb, we, string(text)))
+				}
+			}
+			ts.field("tree").v = tl
+			p.field("tokens").v = ts
+			it.callDecl(exe, p)
+			n++
+			var got []string
+			if s, ok := p.field("trace").v.(*SliceV); ok && s != nil {
+				for _, e := range s.elems {
+					g, _ := e.(string)
+					got = append(got, g)
+				}
+			}
+			if strings.Join(got, " ; ") != strings.Join(want, " ; ") {
+				var ls []string
+				for _, t := range list {
+					ls = append(ls, fmt.Sprintf("%s[%d,%d]", t.kind, t.b, t.e))
+				}
+				bad = append(bad, fmt.Sprintf("tokens %s over %q: the actions see [%s], by definition [%s]", strings.Join(ls, " "), string(text), strings.Join(got, " ; "), strings.Join(want, " ; ")))
+			}
+		}()
+	}
+	if und != "" {
+		c.Und("R-execute-semantics", construct, pos, und)
+		return
+	}
+	sort.Slice(bad, func(i, j int) bool { return len(bad[i]) < len(bad[j]) })
+	if len(bad) > 3 {
+		bad = append(bad[:3], fmt.Sprintf("… %d more", len(bad)-3))
+	}
+	c.Decide(len(bad) == 0 && n > 500, "R-execute-semantics", construct, pos,
+		fmt.Sprintf("%d token lists of at most 4 tokens (captures of 0–2 runes anywhere in a text with 2- and 3-byte runes, two actions, rule tokens) on an instantiation whose actions record text, begin, end and buffer: the recorded trace equals the definition", n), strings.Join(bad, "; "))
+}
+
+// rtMatcherSemantics: R-matcher-semantics — matchDot and matchString evaluated
+// at every position of short buffers: they succeed exactly when a rune other
+// than the end symbol / the literal is there, advance by what they matched,
+// leave the position alone otherwise, and never index outside the buffer.
+func rtMatcherSemantics(a *aggregator, v *rtView) {
+	cfg := v.in.Name
+	construct := "Init/matchDot and matchString match, advance and stay in bounds"
+	if v.cl["matchDot"] == nil && v.cl["matchString"] == nil {
+		return
+	}
+	pos := ""
+	for _, k := range []string{"matchDot", "matchString"} {
+		if f := v.cl[k]; f != nil && pos == "" {
+			pos = v.in.srcPos(f.Pos())
+		}
+	}
+	var bad []string
+	und := ""
+	n := 0
+	texts := []string{"", "a", "ab", "aab", "世a", "ab世"}
+	lits := []string{"a", "ab", "b", "世", "aa", "abc", "a世", "ab世x"}
+	for _, text := range texts {
+		if und != "" {
+			break
+		}
+		L := int64(len([]rune(text)))
+		for p0 := int64(0); p0 <= L; p0++ {
+			func() {
+				defer func() {
+					if p := recover(); p != nil {
+						switch x := p.(type) {
+						case nilDeref:
+							bad = append(bad, fmt.Sprintf("nil dereference at %s (input %q, position %d)", x.pos, text, p0))
+						case goPanic:
+							bad = append(bad, fmt.Sprintf("panic: %s at %s (input %q, position %d)", x.msg, x.pos, text, p0))
+						case undecided:
+							und = x.msg
+						default:
+							panic(p)
+						}
+					}
+				}()
+				ie, err := newInitEnv(v.in, text, false)
+				if err != nil {
+					panic(undecided{err.Error()})
+				}
+				rs := []rune(text)
+				if ie.vars["matchDot"] != nil {
+					ie.set("position", p0)
+					res := ie.call("matchDot")
+					n++
+					got, _ := res[0].(bool)
+					want := p0 < L
+					wp := p0
+					if want {
+						wp++
+					}
+					if got != want || ie.int("position") != wp {
+						bad = append(bad, fmt.Sprintf("input %q position %d: matchDot returns %v and leaves position %d (expected %v, %d)", text, p0, got, ie.int("position"), want, wp))
+					}
+				}
+				if ie.vars["matchString"] != nil {
+					for _, lit := range lits {
+						ie.set("position", p0)
+						res := ie.call("matchString", lit)
+						n++
+						got, _ := res[0].(bool)
+						lr := []rune(lit)
+						want := int(p0)+len(lr) <= len(rs) && string(rs[p0:int(p0)+len(lr)]) == lit
+						wp := p0
+						if want {
+							wp += int64(len(lr))
+						}
+						if got != want || ie.int("position") != wp {
+							bad = append(bad, fmt.Sprintf("input %q position %d: matchString(%q) returns %v and leaves position %d (expected %v, %d)", text, p0, lit, got, ie.int("position"), want, wp))
+						}
+					}
+				}
+			}()
+		}
+	}
+	if und != "" {
+		a.Und("R-matcher-semantics", construct, cfg, pos, und)
+		return
+	}
+	sort.Slice(bad, func(i, j int) bool { return len(bad[i]) < len(bad[j]) })
+	bad = uniq(bad)
+	if len(bad) > 3 {
+		bad = append(bad[:3], fmt.Sprintf("… %d more", len(bad)-3))
+	}
+	a.Decide(len(bad) == 0 && n > 10, "R-matcher-semantics", construct, cfg, pos,
+		fmt.Sprintf("%d calls: every position (the end symbol's included) of 6 inputs, literals shorter than, equal to and longer than the rest of the input: verdict, new position and no out-of-range index as defined", n), strings.Join(bad, "; "))
+}
